@@ -49,6 +49,26 @@ PROPS["C01"] = dict(
     floor=dict(quick=300, thorough=3000),
 )
 
+PROPS["C02"] = dict(
+    level="fault_enumeration",
+    technique="fault enumeration over recorded protected streams replayed into a snapshotted victim (all bits, record edits, crafted records with the real keys via an independent codec), driven by an enumerator and by rapidcheck over (suite, version, victim, fault class, record)",
+    rule=("lab = connected pair for (suite, version, impl set, victim role, buffer layout) with the victim-bound records held back; one evaluation = "
+          "one fault applied to the stream and replayed into the restored victim under a chunking policy: every single bit of a record, drop / "
+          "duplicate / swap / replay-earlier / truncate-at-every-byte / cross-connection splice / reflection at a record index, and records crafted "
+          "with the real keys by the independent codec (every legal CBC padding length = positive control, every wrong padding byte, every wrong "
+          "MAC/tag byte, every lying padding-length byte, wrong sequence number / type / version in MAC input, inadmissible record lengths). "
+          "non-trivial = every evaluation (the victim has accepted the genuine handshake and the stream prefix); distinct = (suite, version, esp, "
+          "victim, layout, fault class, record index, position)"),
+    assumptions=["OpenSSL EVP primitives used by the wiretap codec are correct",
+                 "single-fault model: one edit per replay (adaptive multi-fault attacks and timing are out of scope, see C08)"],
+    targets=[dict(name="c02_tamper", src="c02_tamper.cpp", flavour="san", libs=SSL_LIBS, noseed=True)],
+    quick=[("c02_tamper", "enum", dict(shards=16)),
+           ("c02_tamper", "rc", dict(cases=480, shards=16))],
+    thorough=[("c02_tamper", "enum", dict(shards=16)),
+              ("c02_tamper", "rc", dict(cases=16000, shards=16))],
+    floor=dict(quick=20000, thorough=200000),
+)
+
 # ---------------------------------------------------------------- manifest text
 HOOK_COMMITS = ["b37444c", "e1637c5"]
 NOT_APPLICABLE = {}
@@ -71,4 +91,14 @@ MANIFEST_TEXT["C01"] = dict(
           "authenticates every record. Exploration, not proof."),
     design_ref="DESIGN.md section 4, C01",
     note="trusts OpenSSL 3.0 libssl/libcrypto; 3DES and static-ECDH suites have no foreign handshake peer in this image (wiretap + Bear<->Bear only)",
+)
+
+MANIFEST_TEXT["C02"] = dict(
+    text=("Fault enumeration: for each lab every bit of every record of a short session is flipped (exhaustive for the representative modes in "
+          "quick, for all 113 suite/version pairs in thorough), every record-level edit is applied at every index, and an independent record "
+          "codec holding the real keys crafts valid-MAC records with every legal and illegal padding, wrong MAC bytes, wrong sequence numbers and "
+          "inadmissible lengths. The oracle is the property itself (prefix + fail with non-zero error), plus positive controls that must be "
+          "accepted so that 'reject everything' cannot pass."),
+    design_ref="DESIGN.md section 4, C02",
+    note="single-edit fault model on short sessions; trusts OpenSSL EVP for the crafted records",
 )
